@@ -395,7 +395,8 @@ Qed.
 
 Lemma st_insert_closed s name cols vals : P s -> P (fst (st_insert s name cols vals)).
 Proof.
-  intros H. unfold st_insert. destruct (is_sys_table name); [exact H|].
+  intros H. unfold st_insert. destruct (ins_bad_cols _ _ _ _); [exact H|]. unfold st_insert0.
+  destruct (is_sys_table name); [exact H|].
   destruct (bind _ _) as [[off bs]|e|]; cbn [fst]; try exact H.
   pose proof (P_bt_insert s off bs H) as H1.
   destruct (bt_insert s off bs) as [s1 [[[k l] nr]|e|]]; cbn [fst] in *; try exact H1.
@@ -406,7 +407,8 @@ Qed.
 
 Lemma st_update_closed s name rowid cols vals : P s -> P (fst (st_update s name rowid cols vals)).
 Proof.
-  intros H. unfold st_update. destruct (is_sys_table name); [exact H|].
+  intros H. unfold st_update. destruct (upd_bad_cols _ _ _); [exact H|]. unfold st_update0.
+  destruct (is_sys_table name); [exact H|].
   repeat (break_match; cbn [fst]; try exact H).
   apply P_touch; [reflexivity | exact H].
 Qed.
